@@ -28,8 +28,14 @@ class RxBuf:
 
 
 class MapperModel:
-    """C05 reference model: state in {idle, active(M), unknown}."""
-    IDLE, ACTIVE, UNKNOWN = "idle", "active", "unknown"
+    """C05 reference model: state in {idle, active(M), opened-by-command(S), unknown}.
+
+    A command (Emit/Query/QueryLargeTlv) received while no mapper is active is inside the property's domain.
+    Whether the responder treats it as the session opener or ignores it for mapper purposes is not stated, but
+    either way the next Discover *from that same station* must be answered (idle accepts anyone; a session
+    opened by S accepts S). That is the only expectation attached to the state 'opened-by-command(S)'; a
+    Discover from anyone else there has no expectation and leads to 'unknown'."""
+    IDLE, ACTIVE, SOFT, UNKNOWN = "idle", "active", "opened-by-command", "unknown"
 
     def __init__(self):
         self.state = self.IDLE
@@ -50,6 +56,12 @@ class MapperModel:
                 return "hello"
             if self.state == self.ACTIVE:
                 return "hello" if real_src == self.mapper else "silence"
+            if self.state == self.SOFT:
+                if real_src == self.mapper:
+                    self.state, self.apparent = self.ACTIVE, eth_src
+                    return "hello"
+                self.state, self.mapper, self.apparent = self.UNKNOWN, None, None
+                return None
             return None
         if op == W.OP_RESET:
             self.state, self.mapper, self.apparent = self.IDLE, None, None
@@ -57,7 +69,12 @@ class MapperModel:
         if op in COMMAND_OPS:
             if self.state == self.ACTIVE and real_src == self.mapper:
                 return None                  # command from the active mapper: no change
-            # command while idle, or from a stranger: the property leaves take-over open
+            if self.state == self.IDLE:
+                self.state, self.mapper, self.apparent = self.SOFT, real_src, eth_src
+                return None
+            if self.state == self.SOFT and real_src == self.mapper:
+                return None
+            # command from a stranger while a session exists: the property leaves take-over open
             self.state, self.mapper, self.apparent = self.UNKNOWN, None, None
             return None
         return None
